@@ -18,6 +18,7 @@ import z3
 from . import sym
 from .sym import (SBool, SInt, SBV, SReal, And, Or, Not, Implies, eq, truth as scalar_truth,
                   mkbool, is_sym)
+from . import purity
 from .values import (Unsupported, PyExc, MISSING, Class, TypeDummy, Instance, EnumMember, SEnum,
                      all_dc_fields, Function, Builtin, BoundMethod, Property, StaticMethod,
                      ClassMethod, Module, Coroutine, BytesVal, ABytes, SStr, DequeVal, SetVal,
@@ -75,6 +76,42 @@ class Obligation:
         return f"Obl({self.name}: {self.status})"
 
 
+_VARS_CACHE = {}
+
+
+def term_vars(t):
+    """Ids of the free symbols (constants and uninterpreted functions) of a z3 term, cached."""
+    k = t.get_id()
+    r = _VARS_CACHE.get(k)
+    if r is not None:
+        return r[1]
+    out = set()
+    seen = set()
+    stack = [t]
+    while stack:
+        x = stack.pop()
+        i = x.get_id()
+        if i in seen:
+            continue
+        seen.add(i)
+        c = _VARS_CACHE.get(i)
+        if c is not None:
+            out |= c[1]
+            continue
+        if z3.is_app(x):
+            d = x.decl()
+            if d.kind() == z3.Z3_OP_UNINTERPRETED:
+                out.add(d.name())
+            stack.extend(x.children())
+        elif z3.is_quantifier(x):
+            stack.append(x.body())
+    r = frozenset(out)
+    if len(_VARS_CACHE) > 200000:
+        _VARS_CACHE.clear()
+    _VARS_CACHE[k] = (t, r)  # keep the term alive: z3 recycles ast ids of collected terms
+    return r
+
+
 class Path:
     FEAS_TIMEOUT_MS = 5000
     OBL_TIMEOUT_MS = 20000
@@ -84,8 +121,8 @@ class Path:
         self.pos = 0
         self.trail = []
         self.pc = []
-        self.solver = z3.Solver()
-        self.solver.set("timeout", self.FEAS_TIMEOUT_MS)
+        self.pc_kind = []  # 'a' assumption / 'b' branch, parallel to pc
+        self.solver = None  # (constraint-independence slicing: a fresh solver per query)
         self.pending = []
         self.obligations = []
         self.events = []
@@ -103,14 +140,48 @@ class Path:
             raise PathEnd()
         t = sym.tobool_t(c)
         self.pc.append(t)
-        self.solver.add(t)
+        self.pc_kind.append("a")
         if why:
             self.assumed.append(why)
+
+    def relevant(self, t):
+        """Constraint-independence slicing: the path-condition conjuncts that share symbols
+        (transitively) with t.  Sound because the path condition as a whole is satisfiable
+        (every branch taken was checked feasible), so conjuncts over disjoint symbols cannot
+        affect the satisfiability of t."""
+        vs = set(term_vars(t))
+        pending = [(c, term_vars(c)) for c in self.pc]
+        chosen = []
+        changed = True
+        while changed and pending:
+            changed = False
+            rest = []
+            for c, cv in pending:
+                if not cv or (cv & vs):
+                    if cv:
+                        chosen.append(c)
+                        if not cv <= vs:
+                            vs |= cv
+                            changed = True
+                    # variable-free conjuncts are constants; keep them out
+                else:
+                    rest.append((c, cv))
+            pending = rest
+        return chosen
 
     def feasible(self, extra=None):
         import time
         t0 = time.time()
-        r = self.solver.check(*([extra] if extra is not None else []))
+        s = z3.Solver()
+        s.set("timeout", self.FEAS_TIMEOUT_MS)
+        if extra is None:
+            for c in self.pc:
+                s.add(c)
+        else:
+            for c in self.relevant(extra):
+                s.add(c)
+            s.add(extra)
+        r = s.check()
         self.solver_secs += time.time() - t0
         return r != z3.unsat
 
@@ -143,7 +214,7 @@ class Path:
         self.trail.append(d)
         t = c if d else z3.Not(c)
         self.pc.append(t)
-        self.solver.add(t)
+        self.pc_kind.append("b")
         return d
 
     def choose(self, n, label="choice") -> int:
@@ -172,26 +243,62 @@ class Path:
             t = z3.BoolVal(False)
         else:
             t = sym.tobool_t(cond)
-        s = z3.Solver()
-        s.set("timeout", self.OBL_TIMEOUT_MS)
-        for p in self.pc:
-            s.add(p)
-        s.add(z3.Not(t))
-        t0 = time.time()
-        r = s.check()
-        dt = time.time() - t0
+        # a conjunction is discharged conjunct by conjunct, each against its own slice of the
+        # path condition (independent records then cost linear, not exponential, time)
+        conjuncts = []
+        stack = [z3.simplify(t)]
+        while stack:
+            x = stack.pop()
+            if z3.is_and(x):
+                stack.extend(reversed(x.children()))
+            else:
+                conjuncts.append(x)
+        total = 0.0
+        worst = "unsat"
+        model = None
+        smt2 = None
+        for cj in conjuncts:
+            if z3.is_true(cj):
+                continue
+            s = z3.Solver()
+            s.set("timeout", self.OBL_TIMEOUT_MS)
+            nt = z3.Not(cj)
+            for p in self.relevant(nt):
+                s.add(p)
+            s.add(nt)
+            t0 = time.time()
+            r = s.check()
+            total += time.time() - t0
+            if r == z3.sat:
+                worst = "sat"
+                model = s.model()
+                # prefer a small counterexample: try to pin loop indices / lengths down
+                for iname, iv in self.inputs.items():
+                    if isinstance(iv, SInt) and (iname.endswith(":k") or "len" in iname or "count" in iname):
+                        for bound in (0, 2, 16):
+                            s.push()
+                            s.add(iv.t <= bound)
+                            s.set("timeout", 3000)
+                            if s.check() == z3.sat:
+                                model = s.model()
+                                break
+                            s.pop()
+                break
+            if r != z3.unsat:
+                worst = "unknown"
+                smt2 = s.to_smt2()
+        dt = total
         self.solver_secs += dt
-        if r == z3.unsat:
+        if worst == "unsat":
             self.obligations.append(Obligation(name, "discharged", detail, secs=dt, kind=kind))
             self.assume(cond)
             return True
-        if r == z3.sat:
-            m = s.model()
-            self.obligations.append(Obligation(name, "failed", detail, model=self.extract_model(m), secs=dt, kind=kind))
+        if worst == "sat":
+            self.obligations.append(Obligation(name, "failed", detail, model=self.extract_model(model), secs=dt, kind=kind))
             self.assume(cond)  # continue under the assumption so failures do not cascade
             return False
         ob = Obligation(name, "unknown", detail, secs=dt, kind=kind)
-        ob.smt2 = s.to_smt2()
+        ob.smt2 = smt2
         self.obligations.append(ob)
         self.assume(cond)
         return None
@@ -296,6 +403,8 @@ class Interp:
         self._loop_ord_cache = {}
         self.builtins = loader.builtins
         self.log_calls = False
+        self.merge_pure = True
+        self.in_merge = False
 
     # ------------------------------------------------------------------ utilities
     def exc(self, cls_name, *args):
@@ -592,6 +701,10 @@ class Interp:
                     return r
             if fn.is_async:
                 return Coroutine(fn, lambda: self.run_function(fn, args, kwargs))
+            if self.merge_pure and not self.in_merge and _any_sym(args, kwargs) and purity.func_pure(self, fn):
+                r = self.merged_call(fn, args, kwargs)
+                if r is not NotImplemented:
+                    return r
             return self.run_function(fn, args, kwargs)
         if isinstance(fn, Builtin):
             if fn.needs_interp:
@@ -605,6 +718,69 @@ class Interp:
         if isinstance(fn, TypeDummy):
             return fn
         raise Unsupported(f"call of {fn!r}")
+
+    def merged_call(self, fn, args, kwargs):
+        """Call a side-effect-free function on symbolic arguments without forking the caller:
+        all paths through the callee are explored locally and, when every path returns a scalar,
+        merged into one if-then-else term.  Sound because the callee is pure (pyvc/purity.py)."""
+        parent = self.path
+        outcomes = []
+        work = [[]]
+        names0 = sym._ctr[0]
+        self.in_merge = True
+        try:
+            while work:
+                prefix = work.pop()
+                if len(outcomes) > 64:
+                    return NotImplemented
+                child = Path(prefix)
+                child.pc = list(parent.pc)
+                child.pc_kind = list(parent.pc_kind)
+                child.inputs = parent.inputs
+                child.ghost = parent.ghost
+                base = len(parent.pc)
+                self.path = child
+                try:
+                    v = self.run_function(fn, args, kwargs)
+                    ok = True
+                except PyExc:
+                    ok = False
+                except PathEnd:
+                    ok = None
+                finally:
+                    self.path = parent
+                parent.solver_secs += child.solver_secs
+                work.extend(child.pending)
+                if ok is None:
+                    continue
+                if not ok or child.obligations or child.events:
+                    return NotImplemented
+                conds = [t for t, kd in zip(child.pc[base:], child.pc_kind[base:]) if kd == "b"]
+                assumes = [t for t, kd in zip(child.pc[base:], child.pc_kind[base:]) if kd == "a"]
+                outcomes.append((conds, assumes, v, list(child.assumed)))
+        finally:
+            self.in_merge = False
+        if not outcomes:
+            raise PathEnd()
+        vals = [o[2] for o in outcomes]
+        if all(v is None for v in vals):
+            merged = None
+        elif all(isinstance(v, (bool, SBool)) for v in vals) or all(_is_scalar_num(v) for v in vals):
+            merged = vals[-1]
+            for conds, _, v, _ in reversed(outcomes[:-1]):
+                merged = sym.ite(And(*[mkbool(c) for c in conds]), v, merged)
+        elif len(outcomes) == 1:
+            merged = vals[0]
+        else:
+            sym._ctr[0] = names0
+            return NotImplemented
+        for conds, assumes, _, why in outcomes:
+            if assumes:
+                parent.assume(Implies(And(*[mkbool(c) for c in conds]), And(*[mkbool(a) for a in assumes])))
+            for w in why:
+                if w not in parent.assumed:
+                    parent.assumed.append(w)
+        return merged
 
     def bind_args(self, fn, args, kwargs):
         a = fn.node.args
@@ -1612,6 +1788,19 @@ class Interp:
         v = self.eval(node.value, env)
         self.assign(node.target, v, env)
         return v
+
+
+def _any_sym(args, kwargs):
+    for a in list(args) + list(kwargs.values()):
+        if is_sym(a) or isinstance(a, SEnum):
+            return True
+        if isinstance(a, Instance) and not isinstance(a, EnumMember):
+            return True
+    return False
+
+
+def _is_scalar_num(v):
+    return isinstance(v, (int, float, SInt, SReal, SBV)) and not isinstance(v, bool)
 
 
 class SymSlice:
